@@ -85,3 +85,43 @@ Section Cosim.
     (s_phase (p_s p), r_phase (p_r p),
      match recv_final_file rcfg (p_r p) with Some w => Some (concat (rev w)) | None => None end).
 End Cosim.
+
+(** * Receive capacity
+
+    The receiver's socket buffer is finite and the sender does not wait for it: of every burst
+    the sender hands to the network between two of its receives only the first [cap] datagrams
+    reach the channel.  (No other faults; the channels are otherwise perfect.) *)
+Section CosimCap.
+  Variables (scfg : scfg) (rcfg : rcfg) (cap : nat).
+
+  Definition pair_step_cap (p : pair_state) : option pair_state :=
+    match ch_q (p_sr p), r_running (p_r p) with
+    | d :: q, true =>
+      let '(r', out) := recv_step rcfg (p_r p) (EvDgram 0 d) in
+      Some (mk_pair (p_s p) r' (mk_chan q (ch_held (p_sr p)) (ch_n (p_sr p))) (chan_puts [] (p_rs p) (acked_bytes out)))
+    | _, _ =>
+      match ch_q (p_rs p), s_running (p_s p) with
+      | d :: q, true =>
+        let '(s', out) := send_step scfg (p_s p) (EvDgram 0 d) in
+        Some (mk_pair s' (p_r p) (chan_puts [] (p_sr p) (firstn cap (sent_bytes out))) (mk_chan q (ch_held (p_rs p)) (ch_n (p_rs p))))
+      | _, _ =>
+        if s_running (p_s p) then
+          let '(s', out) := send_step scfg (p_s p) (EvFail (s_tmo scfg)) in
+          Some (mk_pair s' (p_r p) (chan_puts [] (p_sr p) (firstn cap (sent_bytes out))) (p_rs p))
+        else if r_running (p_r p) then
+          let '(r', out) := recv_step rcfg (p_r p) (EvFail (r_tmo rcfg)) in
+          Some (mk_pair (p_s p) r' (p_sr p) (chan_puts [] (p_rs p) (acked_bytes out)))
+        else None
+      end
+    end.
+
+  Fixpoint pair_run_cap (fuel : nat) (p : pair_state) : pair_state :=
+    match fuel with
+    | O => p
+    | S f => match pair_step_cap p with Some p' => pair_run_cap f p' | None => p end
+    end.
+
+  Definition pair_init_cap (F : bytes) : pair_state :=
+    let '(s0, out0) := send_init scfg F in
+    mk_pair s0 (recv_init rcfg) (chan_puts [] chan_empty (firstn cap (sent_bytes out0))) chan_empty.
+End CosimCap.
